@@ -8,7 +8,7 @@ import tempfile
 import vcheck
 
 OVERLAY = {"cmd/verif_build/main.go": "main.go", "cmd/verif_build/child.go": "child.go", "cmd/verif_build/proj.go": "proj.go",
-           "cmd/verif_build/hist.go": "hist.go", "cmd/verif_build/gen.go": "gen.go", "verif_build_export.go": "export.go"}
+           "cmd/verif_build/hist.go": "hist.go", "cmd/verif_build/gen.go": "gen.go", "cmd/verif_build/multirun.go": "multirun.go", "verif_build_export.go": "export.go"}
 
 ASSUMPTIONS = [
     "every build follows a fresh load in a fresh process (DESIGN.md §4); target bodies are deterministic and read only the files of "
@@ -46,12 +46,14 @@ def run_harness(exe, args, timeout):
 
 
 def nontrivial(i, o):
-    return i.split(" ")[0] in ("build", "crash", "crashload", "gc", "path", "sum")
+    return i.split(" ")[0] in ("build", "crash", "crashload", "gc", "path", "sum", "opts")
 
 
 def report(c, prop, v, origin):
+    hist = v["input"]
+    nops = len(hist.get("ops") or []) + len(hist.get("runs") or [])
     what = "%s (%s, op %d of a %d-op history on a %d-target project): %s" % (
-        v["kind"], origin, v["op"], len(v["input"]["ops"]), len(v["input"]["proj"]["tgts"]), v["detail"])
+        v["kind"], origin, v["op"], nops, len(hist["proj"]["tgts"]), v["detail"])
     c.violation(what, {"input": v["input"], "kind": v["kind"], "op": v["op"], "detail": v["detail"]})
 
 
@@ -100,7 +102,7 @@ def run_prop(c, prop, rule):
         for stream, ps in sorted(pairs.items()):
             c.correspond(stream, drv, ps, nontrivial=nontrivial)
     hist = {k: v for k, v in stats.items() if isinstance(v, (int, float))}
-    for k in ("edit_kinds", "crash_points_hit", "targets_per_project"):
+    for k in ("edit_kinds", "crash_points_hit", "targets_per_project", "project_layouts"):
         for kk, vv in (stats.get(k) or {}).items():
             hist["%s.%s" % (k, kk)] = vv
     c.count("build.judge." + prop, stats.get("builds", 0) + stats.get("gc_ops", 0), hist=hist,
